@@ -128,6 +128,21 @@ def r2(idx, rep):
     rep.check(okl, "R2", f"{fl.file}::CsvPaths._load_csvpath_objects one fresh csvpath per member", f"{ps[0].result if ps else None}", K.where(fl, fl.node))
     # FileCacher hands out copies
     copies(idx, rep, "R2")
+    # ... and what it hands out warm (from the on-disk cache) equals what it computed cold (C19.R2)
+    from . import c19
+
+    class Proxy:
+        def __init__(self, rep):
+            self.rep = rep
+            self.stats = rep.stats
+
+        def __getattr__(self, n):
+            return getattr(self.rep, n)
+
+        def check(self, cond, rid, key, detail="", where=""):
+            return self.rep.check(cond, "R2", key, detail, where)
+
+    c19.r2(idx, Proxy(rep))
 
 
 def copies(idx, rep, rid):
